@@ -46,6 +46,55 @@ static Reg r_rewrite("rewrite_mem", [](std::vector<std::string> const& a) -> std
     return "ok file";
 });
 
+// rewrite_twice <input path> <in: file|mem> <out1> <flags1> <out2> <flags2> : ONE QPDF object written twice (two QPDFWriter
+// objects, one after the other); flags as for rewrite_mem plus enc256 (R6 encryption), minver (setMinimumPDFVersion 1.7 ext 3),
+// force14 (forcePDFVersion 1.4), preserveunref, norm (content normalization). C09: the bytes of the second write must be those
+// a freshly opened document gives with flags2.
+static void
+io_apply_flags(QPDFWriter& w, std::string const& fl)
+{
+    std::string flags = "," + fl + ",";
+    auto has = [&](char const* f) { return flags.find(std::string(",") + f + ",") != std::string::npos; };
+    if (has("det")) w.setDeterministicID(true);
+    if (has("static")) w.setStaticID(true);
+    if (has("lin")) w.setLinearization(true);
+    if (has("qdf")) w.setQDFMode(true);
+    if (has("gen")) w.setObjectStreamMode(qpdf_o_generate);
+    if (has("dis")) w.setObjectStreamMode(qpdf_o_disable);
+    if (has("nocompress")) w.setCompressStreams(false);
+    if (has("minver")) w.setMinimumPDFVersion("1.7", 3);
+    if (has("force14")) w.forcePDFVersion("1.4");
+    if (has("preserveunref")) w.setPreserveUnreferencedObjects(true);
+    if (has("norm")) w.setContentNormalization(true);
+    if (has("uncompress")) w.setStreamDataMode(qpdf_s_uncompress);
+    if (has("enc256")) {
+        w.setR6EncryptionParameters("u", "o", true, true, true, true, true, true, qpdf_r3p_full, true);
+    }
+    if (has("enc128")) {
+        w.setR4EncryptionParametersInsecure("u", "o", true, true, true, true, true, true, qpdf_r3p_full, true, true);
+    }
+}
+static Reg r_rewrite_twice("rewrite_twice", [](std::vector<std::string> const& a) -> std::string {
+    std::string path = a.at(0);
+    bool in_mem = a.at(1) == "mem";
+    QPDF pdf;
+    pdf.setSuppressWarnings(true);
+    std::string data;
+    if (in_mem) {
+        std::ifstream f(path, std::ios::binary);
+        data.assign(std::istreambuf_iterator<char>(f), std::istreambuf_iterator<char>());
+        pdf.processMemoryFile("memory input", data.data(), data.size());
+    } else {
+        pdf.processFile(path.c_str());
+    }
+    for (size_t k = 2; k + 1 < a.size(); k += 2) {
+        QPDFWriter w(pdf, a.at(k).c_str());
+        io_apply_flags(w, a.at(k + 1));
+        w.write();
+    }
+    return "ok";
+});
+
 // job_locale <classic|comma> <args...> : QPDFJob run in-process under a global C++ locale whose numeric punctuation is
 // not the classic one (decimal comma, digit grouping) - what a host application may install with std::locale::global()
 #include <qpdf/QPDFJob.hh>
